@@ -54,7 +54,6 @@ FULL_MAX = 4  # sets of up to FULL_MAX elements: all n! permutations are alterna
 
 
 # ------------------------------------------------------------------------------------------ permutations
-@typing.no_type_check
 def _perm_table(n: int) -> typing.List[typing.Tuple[int, ...]]:
     return list(itertools.permutations(range(n)))  # lexicographic; index 0 = identity
 
@@ -456,6 +455,30 @@ def set_clock(name: str) -> None:
 
 def clock_reads() -> int:
     return _Clock.reads
+
+
+def tree_stamp() -> str:
+    """Fingerprint (paths, sizes, mtimes) of the nunavut sources under test; a run whose stamp changes between start
+    and end compared executions of two different trees and is void (HarnessError), not a verdict."""
+    import hashlib  # pylint: disable=import-outside-toplevel
+
+    from vf.core import REPO  # pylint: disable=import-outside-toplevel
+
+    h = hashlib.sha256()
+    n = 0
+    for p in sorted((REPO / "src" / "nunavut").rglob("*")):
+        if p.is_file() and "__pycache__" not in p.parts:
+            st = p.stat()
+            h.update(f"{p}|{st.st_size}|{st.st_mtime_ns}\n".encode())
+            n += 1
+    if n < 50:
+        raise HarnessError(f"only {n} source files found under {REPO}/src/nunavut")
+    return h.hexdigest()[:16]
+
+
+def assert_tree_unchanged(stamp: str) -> None:
+    if tree_stamp() != stamp:
+        raise HarnessError("the nunavut tree under test changed while the check was running; results are void, re-run")
 
 
 __all__ = [
